@@ -22,6 +22,7 @@ import Driver.TxValidate
 import Driver.InspectorHooks
 import Driver.Static
 import Driver.HandlerCfg
+import Driver.Frame
 /-! Line-protocol driver: one request per line on stdin, one reply per line on stdout.
 Stateless components are dispatched on the first token. A stateful component `X` adds a field
 `x : Driver.X.St := Driver.X.St.init` to `DState`, resets it on `begin x …` and threads it through
@@ -42,6 +43,7 @@ structure DState where
   txv : Driver.TxValidate.St := {}
   hooks : Driver.InspectorHooks.St := Driver.InspectorHooks.St.init
   hcfg : Driver.HandlerCfg.St := Driver.HandlerCfg.St.init
+  frame : Driver.Frame.St := Driver.Frame.St.init
   -- stateful component states go here
 
 def step (st : DState) (line : String) : DState × String :=
@@ -84,6 +86,8 @@ def step (st : DState) (line : String) : DState × String :=
   | "begin" :: "hcfg" :: r => let (s, out) := Driver.HandlerCfg.begin st.hcfg r; ({ st with hcfg := s }, out)
   | "hcfg-build" :: r => let (s, out) := Driver.HandlerCfg.buildLine st.hcfg r; ({ st with hcfg := s }, out)
   | "hcfg" :: r => let (s, out) := Driver.HandlerCfg.handle st.hcfg r; ({ st with hcfg := s }, out)
+  | "begin" :: "frame" :: r => let (s, out) := Driver.Frame.begin r; ({ st with frame := s }, out)
+  | "frame" :: r => let (s, out) := Driver.Frame.handle st.frame r; ({ st with frame := s }, out)
   | _ => (st, "bad-op")
 
 partial def loop (hin hout : IO.FS.Stream) (st : DState) : IO Unit := do
